@@ -147,6 +147,31 @@ def count_driven_loops(ctx, rule, bindings=None):
         if b is None:
             continue
         cs = q.calls(b, callee)
+        if not cs:
+            # second spelling: (0..count).map(|_| callee(..)).collect::<Result<Vec<_>>>() - the closure is the loop body, collect
+            # into Result stops at the first Err and hands it on; the collected Result must itself be returned / ?-propagated
+            import schedule as _sch
+            S = _sch.get(fx)
+            done = False
+            for c in q.calls(b, 'std::iter::Iterator::collect'):
+                ic = S._iter_closure(b, c)
+                if ic is None:
+                    continue
+                rng, cl, cb = ic
+                rt = res(cb).ret()
+                only_callee = all(a[0] == 'call' and a[1] == callee for a in alts(rt)) and len(q.calls(cb, callee)) == 1
+                src = q.unwrap_into_iter(rng)
+                ok_r = src[0] == 'agg' and src[1] == 'std::ops::Range' and q.const_val(dict(src[3])['start']) == 0
+                end = dict(src[3])['end'] if ok_r else None
+                ok_r = ok_r and (common.is_read(end, ('word',)) if fn.endswith('read_aseprite') else is_param(end, 1))
+                fates = q.result_fates(b, c.dest['l'])
+                ok_prop = q.ty_is_result(c.dest['ty']) and bool(fates) and all(f[0] in ('try', 'returned', 'ret') for f in fates)
+                ctx.inst(rule, fn.split('::')[-1] + '#loop', only_callee and ok_r and ok_prop, '%s: collect::<Result<_>>() over (0..count).map(closure): the closure '
+                         'returns %s(..) itself %s, range 0..count %s, collected Result propagated %s' % (fn.split('::')[-1], callee.split('::')[-1], only_callee, ok_r, ok_prop),
+                         c.span, key=fn + '|%s|loop' % rule)
+                done = True
+            if done:
+                continue
         ctx.floor('%s calls in %s' % (callee.split('::')[-1], fn.split('::')[-1]), len(cs), 1)
         for c in cs:
             L = b.cfg.loop_of(c.bb)
